@@ -8,7 +8,10 @@ import (
 	"golang.org/x/tools/go/ssa"
 )
 
-type SliceV struct{ Arr, Off, Len, Cap *Term }
+type SliceV struct {
+	Arr, Off, Len, Cap *Term
+	Inner              map[string]*Term // spec-only: element storage given directly (leaf path -> array)
+}
 
 type LocKind int
 
